@@ -14,6 +14,14 @@ def raise_for(f, director, key, phase, oserr=False, **extra):
     director.note_raised(f, key, phase, **extra)
     if f['kind'] == 'base':
         raise InjectedBase(f['tag'])
+    if f['kind'] == 'brokenpipe':
+        from .director import TaggedBrokenPipe
+
+        raise TaggedBrokenPipe(f['tag'])
+    if f['kind'] == 'timeouterr':
+        from .director import TaggedTimeout
+
+        raise TaggedTimeout(f['tag'])
     if oserr or f['kind'] == 'oserror':
         raise InjectedOSError(f['tag'])
     raise InjectedError(f['tag'])
@@ -76,12 +84,13 @@ class NonSeekableSource:
     n bytes; short reads only when scripted, because s3transfer documents that
     it relies on read(n) returning n bytes unless at EOF (as BufferedReader does)."""
 
-    def __init__(self, world, label, data):
+    def __init__(self, world, label, data, read_caps=None):
         self.w, self.label = world, label
         self._b = io.BytesIO(data)
         self.bytes_read = 0
         self.max_read_req = 0
         self.nreads = 0
+        self.read_caps = read_caps
 
     def readable(self):
         return True
@@ -92,7 +101,11 @@ class NonSeekableSource:
         f = d.point(key, 'before')
         if f is not None:
             raise_for(f, d, key, 'before')
-        data = self._b.read() if amt is None else self._b.read(amt)
+        n = amt
+        if self.read_caps and amt is not None and amt > 0:
+            # a raw pipe / socket may return fewer bytes than asked for before EOF
+            n = min(amt, self.read_caps[self.nreads % len(self.read_caps)])
+        data = self._b.read() if n is None else self._b.read(n)
         self.nreads += 1
         self.bytes_read += len(data)
         if amt is not None and amt > self.max_read_req:
@@ -311,7 +324,7 @@ class HookedOSUtils(OSUtils):
 
     def __init__(self, world, labels=None, virtual_sizes=None):
         self.w = world
-        self.labels = labels or {}  # final path -> label
+        self.labels = labels if labels is not None else {}  # final path -> label
         self.virtual_sizes = virtual_sizes or {}
         self.writes = []
         self.overlap = []
